@@ -618,7 +618,7 @@ func init() {
 			"allocator.MemoryAllocationStore MarshalJSON/UnmarshalJSON"},
 		Stub: []string{"distributed store backend (scn.c12store behind allocator.Store replaces nexus.MemoryStore/CLSet: tape-ordered Query, injectable errors, watch fan-out through scheduler tasks)",
 			"AllocationStore failure injection wrapper around the real MemoryAllocationStore"},
-		Rule:         "cases: 5-30 allocate/renew/release/tick/stop/restart/err-at/crash-at ops over <=6 subscribers, pools of 2-14 units, 1-3 nodes; crash before/after a chosen store call, Query order from the tape, watch delay/dup/reorder; fault-free tail restarts every node from the store; non-trivial = >=3 completed operations and (a fault fired or >2 context switches); distinct = distinct (case hash, schedule fingerprint)",
+		Rule:         "cases: 5-30 allocate/renew/release/tick/stop/restart/err-at/crash-at ops over <=6 subscribers, pools of 2-14 units, 1-3 nodes; crash before/after a chosen store call, Query order from the tape, watch delay/dup/reorder; overlapping (allocate|renew) vs release of one subscriber on one node, keep-alive motif over several epochs, lease grace 1 or 2 (single node), store write failures that coincide with the caller's context being cancelled; fault-free runs are swept for memory/store agreement; fault-free tail restarts every node from the store; non-trivial = >=3 completed operations and (a fault fired or >2 context switches); distinct = distinct (case hash, schedule fingerprint)",
 		QuickRuns:    20000,
 		ThoroughRuns: 600000,
 		Assumptions: []string{"the store itself is linearizable and a failed call has no effect (clean failure)", "a watcher registered by a crashed or stopped node receives nothing further",
